@@ -13,6 +13,7 @@ import (
 	"os"
 	"runtime"
 	"runtime/debug"
+	"runtime/metrics"
 	"sort"
 	"strings"
 	"time"
@@ -219,5 +220,27 @@ func collectGarbage() {
 // limit stays as a safety net).
 func manualGC() {
 	debug.SetGCPercent(-1)
-	debug.SetMemoryLimit(1 << 30)
+	debug.SetMemoryLimit(768 << 20)
+}
+
+var heapSample = []metrics.Sample{{Name: "/memory/classes/heap/objects:bytes"}}
+
+// heapObjectsBytes reads the live+dead object bytes of the heap (no stop-the-world).
+func heapObjectsBytes() uint64 {
+	metrics.Read(heapSample)
+	if heapSample[0].Value.Kind() == metrics.KindUint64 {
+		return heapSample[0].Value.Uint64()
+	}
+	return 0
+}
+
+// gcDue decides at a run boundary whether to collect: after 32 runs at the
+// latest, earlier when the heap has grown past 96 MiB.
+func gcDue(sinceGC *int) bool {
+	*sinceGC++
+	if *sinceGC >= 32 || (*sinceGC%4 == 0 && heapObjectsBytes() > 96<<20) {
+		*sinceGC = 0
+		return true
+	}
+	return false
 }
